@@ -132,6 +132,20 @@ func copyVal(v interface{}) interface{} {
 	return v
 }
 
+// CrashIsViolation implements core.CrashChecker: a run that kills the process
+// or computes without end counts against the property ("each request's
+// response is identical to the response it gets when run alone" needs a
+// response), see HangNeedsLibraryFrame for what is not counted.
+func (C12) CrashIsViolation() string { return "C12" }
+
+// RunTimeout implements core.CrashChecker (a run takes milliseconds).
+func (C12) RunTimeout() float64 { return 30 }
+
+// HangNeedsLibraryFrame implements core.HangAttributor: only a child whose
+// goroutine dump shows library code computing counts; everything parked is
+// harness trouble (exit 2).
+func (C12) HangNeedsLibraryFrame() bool { return true }
+
 func (c C12) Run(t *tape.Tape, opt core.RunOpt) (res core.Result) {
 	cfg := sched.DrawConfig(t)
 	cfg.MaxSteps = 400000
@@ -160,7 +174,7 @@ func (c C12) Run(t *tape.Tape, opt core.RunOpt) (res core.Result) {
 	// the same first-use windows), the other half mixes in the special ones
 	extras := t.Bool(1, 2)
 	for i := range pool {
-		pool[i] = workload.GenRequest(t, workload.ReqOpt{Strat: strat, MultiOp: !pathMode && t.Bool(1, 4), Introspection: !pathMode, NoUnion: noUnion, Ghost: extras && t.Bool(1, 2), Relay: extras && t.Bool(1, 2), Pick: extras && t.Bool(1, 2), Nick: extras && t.Bool(1, 2), Span: extras && t.Bool(1, 2), Blob: extras && t.Bool(1, 2), Call: extras && t.Bool(1, 2),
+		pool[i] = workload.GenRequest(t, workload.ReqOpt{Strat: strat, MultiOp: !pathMode && t.Bool(1, 4), Introspection: !pathMode, NoUnion: noUnion, Ghost: extras && t.Bool(1, 2), Relay: extras && t.Bool(1, 2), Pick: extras && t.Bool(1, 2), Nick: extras && t.Bool(1, 2), Span: extras && t.Bool(1, 2), Blob: extras && t.Bool(1, 2), Call: extras && t.Bool(1, 2), Tune: extras && t.Bool(1, 2),
 			VarInLiteral: strat != workload.StratReflect, ShuffleArgs: true, MaxDepth: 2 + t.Draw(3), PathMode: pathMode})
 	}
 	if strat == workload.StratReflect && t.Bool(1, 8) {
